@@ -530,6 +530,114 @@ pub fn socket_lag_case(dir: &std::path::PathBuf, later: usize) -> Result<(usize,
     res
 }
 
+/// Announcements held back for a peer that chokes us, flushed into a socket that cannot take them
+/// at once (real loopback TCP, real clock; the harness plays the manager and the remote peer). The
+/// real connection task runs over a TcpStream whose send buffer is 4 KiB and whose peer has a 4 KiB
+/// receive buffer and does not read while it chokes us; `held_back` pieces complete elsewhere
+/// (SendHave broadcasts, never allowed to lag), then the peer unchokes, reads, and one more piece
+/// completes. The peer must decode Have 0, 1, .., held_back and nothing else.
+pub fn held_back_flush_case(held_back: usize) -> Result<(usize, Option<(&'static str, String)>), String> {
+    use rdest::verif::{handler_snapshot, Bitfield, BroadCmd, InitCmd, PeerCmd, PeerHandler, UnchokeCmd};
+    use std::cell::RefCell;
+    use std::rc::Rc;
+    use std::time::{Duration, Instant};
+    use tokio::io::{AsyncReadExt, AsyncWriteExt};
+    use tokio::sync::{broadcast, mpsc};
+    rdest::verif::clear_snapshots();
+    rdest::verif::set_choices(vec![]);
+    rdest::verif::set_net(None);
+    core::set_quiet_panics(true);
+    let info_hash = [7u8; 20];
+    let peer_id = *b"-HS0001-heldbackpeer";
+    let pieces_num = held_back + 1;
+    let rt = tokio::runtime::Builder::new_current_thread().enable_all().build().map_err(|e| e.to_string())?;
+    let local = tokio::task::LocalSet::new();
+    local.block_on(&rt, async {
+        let lsock = tokio::net::TcpSocket::new_v4().map_err(|e| e.to_string())?;
+        lsock.set_recv_buffer_size(4096).map_err(|e| e.to_string())?;
+        lsock.bind("127.0.0.1:0".parse().unwrap()).map_err(|e| e.to_string())?;
+        let listener = lsock.listen(4).map_err(|e| e.to_string())?;
+        let peer_addr = listener.local_addr().map_err(|e| e.to_string())?;
+        let csock = tokio::net::TcpSocket::new_v4().map_err(|e| e.to_string())?;
+        csock.set_send_buffer_size(4096).map_err(|e| e.to_string())?;
+        let (ours, accepted) = tokio::join!(csock.connect(peer_addr), listener.accept());
+        let ours = ours.map_err(|e| e.to_string())?;
+        let (mut peer, _) = accepted.map_err(|e| e.to_string())?;
+        let addr = peer_addr.to_string();
+        let (peer_tx, mut peer_rx) = mpsc::channel(64);
+        let (broad, broad_rx) = broadcast::channel(32);
+        let killed: Rc<RefCell<Option<String>>> = Rc::new(RefCell::new(None));
+        let killed2 = killed.clone();
+        // the manager's side: bitfield without pieces, nothing to ask this peer for
+        tokio::task::spawn_local(async move {
+            while let Some(cmd) = peer_rx.recv().await {
+                match cmd {
+                    PeerCmd::Init { resp_ch, .. } => {
+                        let _ = resp_ch.send(InitCmd::SendBitfield { bitfield: Bitfield::from_vec(&vec![false; pieces_num]) });
+                    }
+                    PeerCmd::RecvUnchoke { resp_ch, .. } => {
+                        let _ = resp_ch.send(UnchokeCmd::Ignore);
+                    }
+                    PeerCmd::KillReq { reason, .. } => *killed2.borrow_mut() = Some(reason),
+                    _ => (),
+                }
+            }
+        });
+        let mut handler = PeerHandler::new(addr.clone(), *crate::world::OWN_ID, None, info_hash, pieces_num, peer_tx, broad_rx);
+        let task = tokio::task::spawn_local(async move { handler.run_outgoing(ours).await });
+        peer.write_all(&refwire::encode(&refwire::handshake(&info_hash, &peer_id))).await.map_err(|e| e.to_string())?;
+        let mut hello = vec![0u8; 68 + 4 + 1 + (pieces_num + 7) / 8];
+        tokio::time::timeout(Duration::from_secs(10), peer.read_exact(&mut hello)).await.map_err(|_| "no handshake and bitfield from the client within 10 s".to_string())?.map_err(|e| e.to_string())?;
+        if hello[68 + 4] != 5 || hello[68 + 5..].iter().any(|b| *b != 0) {
+            return Err("the client's first frame after its handshake is not the empty bitfield the manager handed out".to_string());
+        }
+        // pieces complete elsewhere; the broadcast queue (32, the session's size) never lags
+        for piece_index in 0..held_back {
+            broad.send(BroadCmd::SendHave { piece_index }).map_err(|_| "the connection task is gone".to_string())?;
+            while broad.len() >= 16 {
+                tokio::task::yield_now().await;
+            }
+        }
+        let started = Instant::now();
+        while broad.len() > 0 || handler_snapshot(&addr).map(|s| s.msg_buff.len()) != Some(held_back) {
+            if started.elapsed() > Duration::from_secs(20) {
+                // a client that does not hold announcements back writes them at once: nothing to flush
+                break;
+            }
+            tokio::time::sleep(Duration::from_millis(1)).await;
+        }
+        peer.write_all(&refwire::encode(&Msg::Unchoke)).await.map_err(|e| e.to_string())?;
+        let mut stream: Vec<u8> = vec![];
+        let mut buf = vec![0u8; 65536];
+        let read_quiet = |want: usize| (want, ());
+        let _ = read_quiet;
+        async fn drain(peer: &mut tokio::net::TcpStream, stream: &mut Vec<u8>, buf: &mut Vec<u8>, want: usize) {
+            while stream.len() < want {
+                match tokio::time::timeout(Duration::from_secs(2), peer.read(buf)).await {
+                    Ok(Ok(0)) | Ok(Err(_)) | Err(_) => break,
+                    Ok(Ok(n)) => stream.extend_from_slice(&buf[..n]),
+                }
+            }
+        }
+        drain(&mut peer, &mut stream, &mut buf, held_back * 9).await;
+        let _ = broad.send(BroadCmd::SendHave { piece_index: held_back });
+        drain(&mut peer, &mut stream, &mut buf, (held_back + 1) * 9).await;
+        let (msgs, _, err) = refwire::decode_stream(&stream);
+        let haves: Vec<u32> = msgs.iter().filter_map(|m| if let Msg::Have(i) = m { Some(*i) } else { None }).collect();
+        let others = msgs.iter().filter(|m| !matches!(m, Msg::Have(_) | Msg::KeepAlive)).count();
+        let expected: Vec<u32> = (0..=held_back as u32).collect();
+        let reason = killed.borrow().clone();
+        drop(peer);
+        drop(broad);
+        let _ = tokio::time::timeout(Duration::from_secs(2), task).await;
+        if haves == expected && err.is_none() && others == 0 {
+            return Ok((msgs.len(), None));
+        }
+        let first_bad = haves.iter().zip(expected.iter()).position(|(a, b)| a != b).unwrap_or(haves.len().min(expected.len()));
+        Ok((msgs.len(), Some(("held-back-announcements-lost-or-garbled-on-a-full-socket", format!("{} pieces completed while the peer choked us (send buffer 4 KiB, peer's receive buffer 4 KiB, peer not reading), then it unchoked and read everything, then one more piece completed: the peer decoded {} announcements instead of {} (in completion order up to #{}, then {:?}); {} other frames; stream error {:?}; {} bytes received; connection task ended: {:?}", held_back, haves.len(), expected.len(), first_bad, haves.get(first_bad), others, err, stream.len(), reason)))))
+    })
+}
+
 /// A peer dials in from the very address (ip:port) under which the client already holds an outgoing
 /// connection (a client that makes its outgoing connections from its listening port, restarted
 /// under a new id). Real session and real accept path (loopback TCP, source port bound to X); the
@@ -731,9 +839,23 @@ pub fn run(ctx: &Ctx) -> Outcome {
             json!(null)
         }
     };
+    // held-back announcements flushed into a socket that cannot take them at once
+    let hb = ctx.tier.pick(3000usize, 6000usize);
+    let hb_row = match held_back_flush_case(hb) {
+        Ok((n, None)) => json!({"held_back": hb, "frames_judged": n, "ok": true}),
+        Ok((n, Some((class, why)))) => {
+            ctx.violation(class, why, json!({"kind": "heldback", "held_back": hb}));
+            json!({"held_back": hb, "frames_judged": n, "violation": class})
+        }
+        Err(e) => {
+            ctx.machinery_error(format!("held-back flush run could not be carried out: {}", e));
+            json!(null)
+        }
+    };
     let mut o = Outcome::new("model_checking");
     explore::stats_outcome(&total, &mut o);
     o.set("scenarios", Value::Array(per));
+    o.set("held_back_flush_run", hb_row);
     o.set("real_socket_lag_runs", Value::Array(lag_rows));
     o.set("known_address_dial_in_run", ka_row);
     o.set("rule", json!("single-block pieces; D (honest, outgoing, broadcasts ungated): P = correct answer to the oldest outstanding request (completes a piece); O1: A1 the client connects (writes handshake + bitfield), S1 peer handshake, U1/C1 unchoke/choke us, L1 release the oldest held-back broadcast to its connection task; O2 (incoming, present from the start): S2, U2/C2, L2; BFS over all interleavings, every tie-break of the chooser enumerated; states = canonical snapshots + monitor (released lists, Have frames per connection). Plus three full-session scenarios borrowed from C02 (announce-*: a host re-listed under a new peer id while its old connection is live, two seeders with held-back broadcasts, a connected address re-listed in front of a new one): every Have frame and every bitfield bit the client writes names a stored, verified piece. Plus real-socket runs (lag, dial-in from a connected address)."));
@@ -745,6 +867,22 @@ pub fn replay(_ctx: &Ctx, r: &Value) -> i32 {
     if r["kind"] == "knownaddr" {
         let dir = core::private_cwd("c11", "replay");
         return match known_address_dial_in_case(&dir) {
+            Ok((_, Some((class, why)))) => {
+                println!("VIOLATION property=C11 replay=<this file>\n  class={} {}", class, why);
+                1
+            }
+            Ok((n, None)) => {
+                println!("holds for this run ({} frames judged)", n);
+                0
+            }
+            Err(e) => {
+                eprintln!("could not be carried out: {}", e);
+                2
+            }
+        };
+    }
+    if r["kind"] == "heldback" {
+        return match held_back_flush_case(r["held_back"].as_u64().unwrap() as usize) {
             Ok((_, Some((class, why)))) => {
                 println!("VIOLATION property=C11 replay=<this file>\n  class={} {}", class, why);
                 1
